@@ -31,4 +31,9 @@ def tieAtCut (cs : List (List Nat)) (k : Nat) : Bool :=
 def fillHoles (g : Adj) (univ s : List Nat) (n : Nat) : List Nat :=
   norm (s ++ ((holesSorted g univ s).drop (1 + n)).flatten)
 
+/-- `fill_holes_smaller_than(f)`: the MOC plus every component of its complement covering at most the sky
+    fraction `f`, i.e. made of at most `k` cells of the working depth (`k = ⌊f · n_cells⌋`). -/
+def fillHolesSmaller (g : Adj) (univ s : List Nat) (k : Nat) : List Nat :=
+  norm (s ++ ((splitAll g (univ.filter fun y => !s.contains y)).filter fun c => decide (c.length ≤ k)).flatten)
+
 end Moc.Graph
